@@ -129,7 +129,7 @@ func (r *pathRun) run(fn *ssa.Function, args []pval) []pval {
 				return AVal{}, false
 			}
 			_, st := ownerOfFieldBase(x.X.Type())
-			paths[v] = paths[x.X] + "." + st.Field(x.Field).Name()
+			paths[v] = paths[x.X] + "." + fieldNameOf(st.Field(x.Field))
 			return AVal{K: 'o'}, true
 		case *ssa.Field:
 			b := eval(x.X)
@@ -137,7 +137,7 @@ func (r *pathRun) run(fn *ssa.Function, args []pval) []pval {
 				return AVal{}, false
 			}
 			_, st := ownerOfFieldBase(x.X.Type())
-			path := paths[x.X] + "." + st.Field(x.Field).Name()
+			path := paths[x.X] + "." + fieldNameOf(st.Field(x.Field))
 			paths[v] = path
 			return atomAt(path, x.Type())
 		case *ssa.UnOp:
